@@ -18,6 +18,7 @@ func init() {
 }
 
 func checkC01(r *core.Run) {
+	D3Mods = r.Mods
 	r.Explanation = "C01 (structural clauses only): consensus-reachable module code contains no read of wall clock/entropy/host state that influences state (D1), no order-sensitive map iteration (D2), no write to process-resident state (D3), no concurrency (D4), no fusable float expression (D5). Decides these necessary conditions, not replica equality itself."
 	r.Rule("D1: every call to time.Now/Since/Until, math/rand, crypto/rand, os.*, runtime.Num*, uuid V1/V4, reflect MapKeys/MapRange in consensus-reachable code may only feed telemetry/logging")
 	r.Rule("D2: every `range` over a map in consensus-reachable code has an order-insensitive body (per-key store access keyed by the range key, map inserts, integer/bool accumulation; no append, events, bank, early exit, constant-key writes)")
@@ -58,6 +59,7 @@ func checkC01(r *core.Run) {
 }
 
 func checkC03(r *core.Run) {
+	D3Mods = r.Mods
 	r.Explanation = "C03 (structural clauses only): module code reachable from consensus entry points (and therefore from CheckTx/simulation, which run the same handlers and hooks) never writes process-resident state: package-level variables, fields of long-lived keeper/server/hook values, memory or transient stores. If that holds, module code is a function of (committed stores, message), which is what restart equivalence needs from it. Decides this necessary condition, not SDK/IAVL restart behaviour."
 	r.Rule("D3: no store/map update/in-place mutator rooted at a package-level variable or at a field of a long-lived pointer receiver (Keeper, msgServer, Hooks, AppModule, App, Migrator)")
 	r.Rule("D3-mem: no module function opens a KV store through a mem/transient key")
